@@ -37,6 +37,7 @@ import (
 	"sort"
 	"strings"
 	"sync"
+	"sync/atomic"
 	"syscall"
 	"testing"
 	"time"
@@ -524,13 +525,12 @@ func (f *c31Fixture) measure(c *verifmc.Check) (unsigned, envelope [3]int, ok bo
 	var all []*c31Tx
 	for cl, ms := range classes {
 		for i, m := range ms {
-			// member 0 of the heavy classes and every small member go through the
-			// real Validate here (sequential: it takes the store's ghost-key
-			// lock); the other heavy members (same shape, other inputs) are
-			// validated by the real batcher in the replayed traces, where an
-			// invalid member would drop out of the batch and show as a
-			// conformance mismatch
-			if i == 0 || cl == c31S {
+			// member 0 of every class goes through the real Validate here
+			// (sequential: it takes the store's ghost-key lock); the other
+			// members (same shape, other inputs) are validated by the real
+			// batcher in the replayed traces, where an invalid member would drop
+			// out of the batch and show as a conformance mismatch
+			if i == 0 {
 				if err := m.Ver.Validate(f.M.Store, f.Now, false); err != nil {
 					c.Require(false, "class %s member %d does not pass the real Validate: %v", c31ClassName[cl], i, err)
 					return unsigned, envelope, false
@@ -740,7 +740,7 @@ func c31Snapshot(f *c31Fixture, txs []*common.VersionedTransaction) *common.Snap
 
 // c31RealSizes builds the four real messages and their relay wrappings for the
 // members; a builder panic is reported as size -1.
-func c31RealSizes(f *c31Fixture, members []*c31Tx) (plain [4]int, relay [4]int, relayPanic [4]bool) {
+func c31RealSizes(f *c31Fixture, members []*c31Tx, skip ...int) (plain [4]int, relay [4]int, relayPanic [4]bool) {
 	txs := make([]*common.VersionedTransaction, len(members))
 	for i, m := range members {
 		txs[i] = m.Ver
@@ -757,6 +757,10 @@ func c31RealSizes(f *c31Fixture, members []*c31Tx) (plain [4]int, relay [4]int, 
 	}
 	self, to := f.M.Node.IdForNetwork, f.M.Net.NodeIds[1]
 	for k, b := range build {
+		if len(skip) > 0 && skip[0] == k { // kind not built: reported as -2
+			plain[k], relay[k] = -2, -2
+			continue
+		}
 		msg := b()
 		plain[k] = len(msg)
 		var rm []byte
@@ -816,12 +820,13 @@ func TestMC_C31(t *testing.T) {
 	defer debug.SetGCPercent(debug.SetGCPercent(400)) // few, large, short-lived buffers (32 MiB messages)
 	st := &c31Stages{t0: time.Now(), cpu0: c31CPU()}
 	defer func() { c.Set("stages", st.rows) }()
-	// quick tier: 6 signature-heavy members (the probe H^6 separates the two
-	// accountings: 5 join under the signed envelope, all 6 under the unsigned
-	// payload, and is the k+1 trace of the signed accounting); the thorough tier
-	// builds 10 (k+1 of the unsigned accounting as well). One H validation is
-	// 2-3 s of CPU.
-	nS, nP, nH := 250, 7, verifmc.Pick(c, 6, 10)
+	// One validation of a signature-heavy member is 2-3 s of CPU (20 480
+	// signatures). Quick tier: 2 such members; the probe is the queue with the
+	// fewest H members on which the two accountings differ (P^4 H^2 with the
+	// measured sizes: the second H is cut under the signed envelope, joins under
+	// the unsigned payload), so H sits exactly at the accounting boundary.
+	// Thorough tier: 10 members, probe H^10, and the H^(k-1), H^k, H^(k+1) traces.
+	nS, nP, nH := 250, 7, verifmc.Pick(c, 2, 10)
 	f := c31NewFixture(c, nS, nP, nH)
 	defer f.Close()
 	st.done("fixture: three real classes")
@@ -865,7 +870,7 @@ func TestMC_C31(t *testing.T) {
 			}
 		}
 	}
-	formulaChecks := len(combos) * 8
+	var checked atomic.Int64
 	c31Parallel(len(combos), func(i int) {
 		b := combos[i]
 		var members []*c31Tx
@@ -875,15 +880,26 @@ func TestMC_C31(t *testing.T) {
 			}
 		}
 		want := sizer.sizes(b)
-		plain, relay, _ := c31RealSizes(f, members)
+		// the finalized bundle is the same builder as the bundle with another type
+		// byte: in the quick tier it is built for the single-member combinations only
+		var skip []int
+		if !c.Thorough() && len(members) > 1 {
+			skip = []int{1}
+		}
+		plain, relay, _ := c31RealSizes(f, members, skip...)
 		for k := range want {
+			if plain[k] == -2 {
+				continue
+			}
+			checked.Add(1)
 			if plain[k] != want[k] || relay[k] != want[k]+c31RelayHdr {
 				c.Violation("conformance:length-formula:"+c31Kinds[k], fmt.Sprintf("real %s of %s is %d bytes (relay %d), formula says %d (+%d)", c31Kinds[k], c31Key(b), plain[k], relay[k], want[k], c31RelayHdr), map[string]any{"members": c31Key(b)})
 			}
 		}
 		c.AddTraces(1)
 	})
-	c.Set("formula_checks", formulaChecks)
+	c.Set("formula_checks", checked.Load()*2) // plain and relay wrapped
+	c.Set("formula_combinations", len(combos))
 	st.done("formula vs real builders")
 
 	// ---- conformance (ii) part 1: the probe decides the accounted size ----
@@ -991,6 +1007,25 @@ func TestMC_C31(t *testing.T) {
 	}
 
 	probeQ := []c31Run{{c31H, nH}}
+	if !c.Thorough() {
+		probeQ = nil
+	search:
+		for h := 1; h <= nH; h++ {
+			for p := 0; p <= nP; p++ {
+				q := []c31Run{{c31P, p}, {c31H, h}}
+				ju, au, _ := c31Model(q, unsigned)
+				je, ae, _ := c31Model(q, envelope)
+				if ju != je || au != ae {
+					probeQ = q
+					break search
+				}
+			}
+		}
+		if probeQ == nil {
+			c.Require(false, "no probe queue with <= %d H members separates the two accountings", nH)
+			return
+		}
+	}
 	probe := run(probeQ, "probe")
 	if probe == nil {
 		return
@@ -1137,7 +1172,7 @@ func TestMC_C31(t *testing.T) {
 	kOf := func(cl int) int { j, _, _ := c31Model([]c31Run{{cl, c31Retrieve}}, acct); return j[cl] }
 	kH, kP := kOf(c31H), kOf(c31P)
 	c.Set("threshold_members", map[string]int{"H": kH, "P": kP, "S": kOf(c31S)})
-	c.Require(kP+1 <= nP && (kH+1 <= nH || mode != "signed-envelope"), "not enough members built for the threshold traces: kH=%d kP=%d", kH, kP)
+	c.Require(kP+1 <= nP && (!c.Thorough() || kH+1 <= nH || mode != "signed-envelope"), "not enough members built for the threshold traces: kH=%d kP=%d", kH, kP)
 	// quick tier: the heavy class H is replayed in the probe trace (kH+1 members
 	// under the unsigned accounting: kH join, one is cut) and in the worst trace;
 	// the separate kH-1 / kH traces and the smallest violating queues (3 s of
